@@ -39,6 +39,9 @@ ALSO = {
     # a duplicate definition in another file at the same line/column is silently dropped: filed under C17 (order dependence),
     # the dropped duplicate error is C11's subject (the same family as C11-r6m3)
     "C17-r6m1": ["C17", "C11"],
+    # two-site: the checker stops validating the body of a fragment whose type condition is not composite (a C03 break on its
+    # own: `... on Role { id }` is accepted) and the printer panics on such a condition
+    "C08-r6m1": ["C08", "C03"],
 }
 
 
